@@ -36,6 +36,8 @@ func init() {
 var errFake = errors.New("fake: scripted failure")
 var errFakeClosed = errors.New("fake: closed")
 
+const lateMax = 4 * time.Second
+
 type gate struct {
 	f   *fake
 	tag int
@@ -53,6 +55,7 @@ type drv struct {
 	rec      *h.Rec
 	over     bool // after End: nothing is recorded any more
 	closeErr bool // the underlying CloseWithStatus returns an error
+	lateOk   bool // a parked underlying Write does not fail by itself when its fake is closed: the script decides
 	dials    []string
 	ndial    int
 	nextDial int
@@ -210,7 +213,14 @@ func (f *fake) Write(bs []byte) error {
 	f.d.mu.Lock()
 	f.d.parkedW = g
 	f.d.mu.Unlock()
+	closedC := f.closed
+	if f.d.lateOk {
+		closedC = nil // the script decides the outcome also after the connection was replaced (bounded by lateMax)
+	}
 	select {
+	case <-time.After(lateMax):
+		f.d.log("UWrite", "inc", f.inc, "tag", tag, "ok", false, "auto", true, "pos", 0)
+		return errFakeClosed
 	case v := <-g.ch:
 		if v == "ok" {
 			f.mu.Lock()
@@ -222,7 +232,7 @@ func (f *fake) Write(bs []byte) error {
 		}
 		f.d.log("UWrite", "inc", f.inc, "tag", tag, "ok", false, "auto", false, "pos", 0)
 		return errFake
-	case <-f.closed:
+	case <-closedC:
 		f.d.mu.Lock()
 		if f.d.parkedW == g {
 			f.d.parkedW = nil
@@ -353,6 +363,9 @@ func run(sc *h.Scenario) *h.Rec {
 	if a, _ := sc.P["after"].(string); a == "ok" {
 		d.after = "ok"
 	}
+	if lo, _ := sc.P["lateOk"].(bool); lo {
+		d.lateOk = true
+	}
 	if ce, _ := sc.P["closeErr"].(bool); ce {
 		d.closeErr = true
 	}
@@ -413,7 +426,7 @@ func run(sc *h.Scenario) *h.Rec {
 		case "uw":
 			var g *gate
 			ok := d.waitFor(pre, func() bool {
-				if d.parkedW != nil && !d.parkedW.f.isClosed() {
+				if d.parkedW != nil && (d.lateOk || !d.parkedW.f.isClosed()) {
 					g = d.parkedW
 					d.parkedW = nil
 					return true
